@@ -8,20 +8,84 @@ FILES_H = ["ks/zz_verif_ks_common_test.go", "C04/zz_verif_c04h_test.go"]
 HDR_H = HDR.format(imports="model.C04_model model.C04_run") + "Local Open Scope Z_scope.\n"
 
 
-def _replace():
-    """VERIF_REPLACE="services/keepstore/x.go=/abs/mutated.go,..." (mutation checks only; /repo is never edited)."""
-    out = {}
-    for kv in filter(None, os.environ.get("VERIF_REPLACE", "").split(",")):
-        k, v = kv.split("=", 1)
-        out[k] = v
-    return out
+from .ks_instr import instrument as _instrument, replace_env as _replace  # noqa: E402
 
 
 def stage_h(ctx, n, suffix="", off=0, extra_env=None):
     e = {"VERIF_STAGE": "c04h" + suffix}
     e.update(extra_env or {})
-    return ctx.stage("c04h" + suffix, KS, "main", FILES_H, "TestVerifC04H$", n, HDR_H, seed_offset=off, shard=25,
+    return ctx.stage("c04h" + suffix, KS, "main", FILES_H, "TestVerifC04H$", n, HDR_H, seed_offset=off, shard=10,
                      env=e, timeout=1500, replace=_replace() or None)
+
+
+FILES_I = ["ks/zz_verif_ks_common_test.go", "ks/zz_verif_ks_hook_test.go", "C04/zz_verif_c04i_test.go"]
+HDR_I = ("From Coq Require Import NArith List String Bool.\nFrom AV Require Import model.C04_race model.C04_race_run.\n"
+         "Import ListNotations.\nLocal Open Scope string_scope.\n")
+UV = "services/keepstore/unix_volume.go"
+
+
+def instrument(ctx, pid):
+    return _instrument(ctx)
+
+
+SCENARIOS = [(p, put, rm) for put in (False, True) for rm in (False, True)
+             for p in (("PAbsent", "POldGood", "POldCorrupt", "PFreshGood") if put else ("PAbsent", "POldGood", "PFreshGood"))]
+
+
+def race_schedules(ctx):
+    """All maximal schedules of every scenario, enumerated by the Coq model (printed by coqc)."""
+    import re
+    os.makedirs(ctx.casedir, exist_ok=True)
+    v = os.path.join(ctx.casedir, "sched_enum_c04i.v")
+    body = HDR_I
+    for i, (p, put, rm) in enumerate(SCENARIOS):
+        body += "Definition S_%d := Eval vm_compute in sched_strs FUEL (init %s %s %s).\nPrint S_%d.\n" % (
+            i, p, str(put).lower(), str(rm).lower(), i)
+    open(v, "w").write(body)
+    rc, out, _ = core.run(["coqc", "-Q", core.COQ, "AV", os.path.basename(v)], cwd=ctx.casedir, timeout=900)
+    if rc != 0:
+        return None, "coqc failed on schedule enumeration: " + out[-2000:]
+    res = {}
+    parts = re.split(r"^S_(\d+) =", out, flags=re.M)
+    for k in range(1, len(parts), 2):
+        res[int(parts[k])] = re.findall(r'"([ab0-3]*)"', parts[k + 1])
+    if len(res) != len(SCENARIOS) or any(not v for v in res.values()):
+        return None, "could not parse the schedule enumeration"
+    return res, None
+
+
+def stage_i(ctx, per_scenario, suffix="", off=0):
+    import json
+    import random
+    name = "c04i" + suffix
+    inst, err = instrument(ctx, "C04")
+    sch = None
+    if err is None:
+        sch, err = race_schedules(ctx)
+    if err is not None:
+        st = core.Stage(name)
+        st.errors.append(err)
+        ctx.stages.append(st)
+        return st
+    rnd = random.Random(ctx.seed + off + 4004)
+    chosen = []
+    total = 0
+    for i, (p, put, rm) in enumerate(SCENARIOS):
+        allsch = sch[i]
+        total += len(allsch)
+        k = per_scenario if per_scenario else len(allsch)
+        if p == "POldCorrupt" and per_scenario:
+            k *= 2
+        pick = allsch if k >= len(allsch) else rnd.sample(allsch, k)
+        chosen += [dict(prior=p, put=put, rm=rm, steps=x) for x in pick]
+    jf = os.path.join(ctx.casedir, "sched_" + name + ".json")
+    json.dump(chosen, open(jf, "w"))
+    rep = dict(_replace())
+    rep[UV] = inst
+    st = ctx.stage(name, KS, "main", FILES_I, "TestVerifC04I$", len(chosen), HDR_I, seed_offset=off, shard=150,
+                   env={"VERIF_STAGE": name, "VERIF_C04I_SCHEDULES": jf}, timeout=2400, replace=rep)
+    st.meta.setdefault("distribution", {})["schedules_enumerated_by_model"] = total
+    return st
 
 
 def run(ctx):
@@ -29,12 +93,16 @@ def run(ctx):
 
     def stages(ctx, mult, suffix, off):
         stage_h(ctx, n * mult, suffix, off)
-    return standard(ctx, "C04", ["model/C04_run.vo"], stages, known_bits={4: "F14"},
+        stage_i(ctx, 0 if (ctx.tier == "thorough" and not suffix) else 20 * mult, suffix, off)
+    return standard(ctx, "C04", ["model/C04_run.vo", "model/C04_race_run.vo"], stages, known_bits={4: "F20", 8: "F7"},
                     rule="random histories (8-40 requests) of PUT/TOUCH/GET/trash-list/DELETE/untrash/empty-trash on 1-2 Directory volumes, "
                          "time advanced by shifting file times; distinct by hash of the case term; non-trivial = a block was trashed or an untrash was issued",
                     assumptions=[])
 
 
 def dev(ctx, n, extra):
-    core.coq_make(["model/C04_run.vo"])
-    stage_h(ctx, n, extra_env=extra)
+    core.coq_make(["model/C04_run.vo", "model/C04_race_run.vo"])
+    if extra.get("ONLY") != "I":
+        stage_h(ctx, n, extra_env=extra)
+    if extra.get("ONLY") != "H":
+        stage_i(ctx, int(extra.get("PER", "6")))
